@@ -591,14 +591,14 @@ def check_base_constructors(ck, rule, classes=None):
     return n_
 
 
-def check_config_forwarding(ck, rule):
+def check_config_forwarding(ck, rule, modules=None):
     """Every constructor of the package that receives a `config` hands that very object to each package constructor it
     calls which also takes a `config` (base-class __init__ spelled Base.__init__(self, ...), super().__init__(...), or an
     instantiation Class(...)): otherwise the object silently runs with the shared DEFAULT configuration."""
     prog = ck.prog
     n = 0
     for fi in prog.funcs.values():
-        if fi.name != "__init__" or "config" not in fi.params or fi.cls is None:
+        if fi.name != "__init__" or "config" not in fi.params or fi.cls is None or (modules is not None and fi.module not in modules):
             continue
         g = cfg_of(fi)
         for (node, c) in [(node, c) for node in g.live_nodes() for c in node_calls(node)]:
@@ -623,6 +623,26 @@ def check_config_forwarding(ck, rule):
                        "%s is given %s as configuration by %s: the caller's Config is dropped and the object runs with the shared "
                        "DEFAULT configuration (class translation, version, content type of the caller are ignored)"
                        % (q.fn(callee), prov.show(t) if t is not None else "no config", q.fn(fi)), q.loc(fi, node))
+    # the objects a configured object creates on behalf of its user (batch jobs, notifiers) carry its configuration too
+    for fi in prog.funcs.values():
+        if fi.name == "__init__" or fi.module != "jsonrpc" or fi.cls is None or (modules is not None and fi.module not in modules):
+            continue
+        g = cfg_of(fi)
+        for (node, c) in [(node, c) for node in g.live_nodes() for c in node_calls(node)]:
+            r = prog.resolve_call(fi, c)
+            if not (isinstance(r, str) and r.startswith("class:") and r[6:] in prog.classes):
+                continue
+            callee = prog.mro_lookup(prog.classes[r[6:]], "__init__")
+            if callee is None or "config" not in callee.params or callee.module == "config":
+                continue
+            e = kwarg(c, "config", callee.params.index("config") - 1)
+            t = prov.origin(g, node, e) if e is not None else None
+            n += 1
+            okk = t is not None and all(a == ("param", "config") or q.self_attr(a, "_config") or q.self_attr(a, "config") for a in prov.value_alts(t))
+            ck.require(okk, rule, "%s: config handed to %s(...)" % (q.fn(fi), r[6:]), "the object's own configuration",
+                       "%s creates a %s with %s as configuration: the object works with the shared DEFAULT configuration instead of the one of "
+                       "the proxy / batch that created it (class translation and version of the caller are ignored)"
+                       % (q.fn(fi), r[6:].split(".")[-1], prov.show(t) if t is not None else "no config"), q.loc(fi, node))
     return n
 
 
@@ -666,6 +686,13 @@ def check_execute_outcome(ck, rule):
     rexc = [(n, c) for n in g.live_nodes() for c in node_calls(n) if dump(c.func) == "self._done_event.raise_exception"]
     ck.require(len(sets) == 1 and len(rexc) == 1, rule, "%s: outcome stored on both branches" % q.fn(fex), "set(result) / raise_exception(ex)",
                "execute does not store the outcome on both the normal and the exceptional branch", q.loc(fex, fex.node))
+    # the handler that records the failure catches every ordinary exception of the task
+    for (mn, _mc) in mcalls:
+        hts = [h for h in g.live_nodes() if h.kind == "handler" and q.try_body_contains(h_try(fex, h), mn.ast)]
+        broad = any(h.ast.type is None or dump(h.ast.type) in ("Exception", "BaseException") for h in hts)
+        ck.require(broad, rule, "%s: the recording handler catches Exception" % q.fn(fex), "except Exception (or broader)",
+                   "the handler around the task call catches only %s: a task raising anything else leaves its future without an outcome "
+                   "(done() stays False, result() times out)" % ([dump(h.ast.type) for h in hts if h.ast.type is not None] or "nothing"), q.loc(fex, mn))
     # whatever way the call ends (normally, or with an exception the handler catches), no exit of execute is reachable
     # without the outcome having been stored: nothing that may raise stands between the end of the call and the store
     from vlib.flow import reachable_avoiding
